@@ -144,18 +144,22 @@ def md5S : List UInt32 :=
    4, 11, 16, 23, 4, 11, 16, 23, 4, 11, 16, 23, 4, 11, 16, 23,
    6, 10, 15, 21, 6, 10, 15, 21, 6, 10, 15, 21, 6, 10, 15, 21]
 
-def md5Round (m : List UInt32) (s : S4) (i : Nat) : S4 :=
+/-- step number, additive constant, rotation -/
+def md5Steps : List (Nat × UInt32 × UInt32) := (List.range 64).zip (md5K.zip md5S)
+
+def md5Round (m : List UInt32) (s : S4) (step : Nat × UInt32 × UInt32) : S4 :=
+  let i := step.1
   let fg : UInt32 × Nat :=
     if i < 16 then ((s.b &&& s.c) ||| (~~~ s.b &&& s.d), i)
     else if i < 32 then ((s.d &&& s.b) ||| (~~~ s.d &&& s.c), (5 * i + 1) % 16)
     else if i < 48 then (s.b ^^^ s.c ^^^ s.d, (3 * i + 5) % 16)
     else (s.c ^^^ (s.b ||| ~~~ s.d), (7 * i) % 16)
-  let f := fg.1 + s.a + md5K.getD i 0 + m.getD fg.2 0
-  ⟨s.d, s.b + rotl32 f (md5S.getD i 0), s.b, s.c⟩
+  let f := fg.1 + s.a + step.2.1 + m.getD fg.2 0
+  ⟨s.d, s.b + rotl32 f step.2.2, s.b, s.c⟩
 
 def md5Compress (s : S4) (block : Bytes) : S4 :=
   let m := (groups 4 16 block).map word32LE
-  let r := (List.range 64).foldl (md5Round m) s
+  let r := md5Steps.foldl (md5Round m) s
   ⟨s.a + r.a, s.b + r.b, s.c + r.c, s.d + r.d⟩
 
 def md5Out (s : S4) : Str :=
